@@ -42,8 +42,9 @@ func init() {
 			{Name: "crash-sampled", Cfg: "cutden=10,imgcap=16", Gating: true, Share: 3},
 			{Name: "crash-enumerated", Cfg: "enumerate,imgcap=4000", Gating: true, Share: 3},
 			{Name: "fault-free", Cfg: "nocrash", Gating: true, Share: 1},
+			{Name: "power-loss-data-observing", Cfg: "powerloss,cutden=8,imgcap=16", Gating: false, Share: 1},
 		},
-		QuickSecs: 40, ThoroughSecs: 600,
+		QuickSecs: 45, ThoroughSecs: 600,
 		Rule: "one case = one generated append/consume/advance/reopen/purge history plus the crash images cut from it; " +
 			"non-trivial = at least 3 operations and one successful append; distinct = distinct hash of (operation sequence, crash events and torn offsets)",
 		Probes: []string{"segment_rollover", "clean_reopen", "scanner_commit", "redelivery_after_crash", "append_rejected_full", "purge_dropped_entries"},
